@@ -637,6 +637,9 @@ func c09Cases(tier string) int {
 
 func c09Run(c *Case) {
 	i := c.Idx
+	if i == 0 {
+		round8Hand(c, "C09")
+	}
 	na := len(c09AliasForms)
 	if i >= na && i < na+len(c09Text) {
 		c09TextRun(c, i-na)
